@@ -18,6 +18,12 @@ import (
 // This is a zero-allocation alternative to Find() - it returns indices
 // directly instead of creating a Match object.
 func (e *Engine) FindIndices(haystack []byte) (start, end int, found bool) {
+	// Leftmost-longest mode: only the NFA simulation implements it; every
+	// strategy-specific path below computes the leftmost-first match.
+	if e.longest {
+		return e.pikeSearch(haystack)
+	}
+
 	switch e.strategy {
 	case UseNFA:
 		return e.findIndicesNFA(haystack)
@@ -62,6 +68,11 @@ func (e *Engine) FindIndicesAt(haystack []byte, at int) (start, end int, found b
 	// Early impossibility check: anchored pattern can only match at position 0
 	if at > 0 && e.nfa.IsAlwaysAnchored() {
 		return -1, -1, false
+	}
+
+	// Leftmost-longest mode: see FindIndices.
+	if e.longest {
+		return e.pikeSearchAt(haystack, at)
 	}
 
 	switch e.strategy {
@@ -1133,6 +1144,11 @@ func (e *Engine) findIndicesAtWithState(haystack []byte, at int, state *SearchSt
 	// Early impossibility check: anchored pattern can only match at position 0
 	if at > 0 && e.nfa.IsAlwaysAnchored() {
 		return -1, -1, false
+	}
+
+	// Leftmost-longest mode: see FindIndices (state.pikevm carries the mode).
+	if e.longest {
+		return state.pikevm.SearchAt(haystack, at)
 	}
 
 	switch e.strategy {
